@@ -29,7 +29,7 @@ RULE = (
     "otherwise); spikes.times == samples/rate, spikes.samples == samples; label before the "
     "extension of exactly those four families; every .npy loads; the model returned for the "
     "output shows equal spike times, samples, clusters, templates, channel positions and channel "
-    "map; convert(source_dir) raises IOError and writes nothing; SHA-256 of every pre-existing "
+    "map; convert(source_dir) - spelled plainly, as str, through '..', through a symlink or relative to the cwd - raises IOError and writes nothing; SHA-256 of every pre-existing "
     "source file unchanged except temp_wh.dat (deleted) and the _phy_spikes_subset.* files (the "
     "only additions). Non-trivial: curated, or a label, or (n,1) storage, or no raw data.")
 ASSUMPTIONS = ['pc-feature stores that hold all spikes (a row-subset store has no depth '
@@ -48,7 +48,8 @@ def _case(draw):
             'factor': draw(st.sampled_from([1, 2, 2.5, 1e-6])),
             'extras': draw(st.lists(st.sampled_from(['kslabel', 'channel_labels', 'cluster_shanks',
                                                       'temp_wh']), unique=True, max_size=4)),
-            'ncc': draw(st.sampled_from([12, 12, 3, 5]))}
+            'ncc': draw(st.sampled_from([12, 12, 3, 5])),
+            'samedir': draw(st.sampled_from(['plain', 'str', 'dotdot', 'symlink', 'relative']))}
 
 
 def drivers(tier):
@@ -130,7 +131,21 @@ def check(case):
             creator = must_return('EphysAlfCreator()', EphysAlfCreator, m)
             before = D.sha_dir(T.dir)
             # converting into the source directory is refused and writes nothing
-            must_raise('convert(source directory)', IOError, creator.convert, T.dir)
+            # (under any spelling of that directory)
+            how = case.get('samedir', 'plain')
+            target = T.dir
+            if how == 'str':
+                target = str(T.dir)
+            elif how == 'dotdot':
+                target = T.dir / '..' / T.dir.name
+            elif how == 'symlink':
+                target = d / 'link_to_src'
+                target.symlink_to(T.dir, target_is_directory=True)
+            elif how == 'relative':
+                import os
+                target = os.path.relpath(str(T.dir))
+            must_raise('convert(source directory spelled as %s)' % how, IOError, creator.convert,
+                       target)
             require(D.sha_dir(T.dir) == before, 'refused conversion changed the source directory',
                     key='same-dir-wrote')
             out = d / 'alf'
